@@ -211,3 +211,20 @@ package corazawaf
 //@     invariant isnil(kept) || fresh(kept)
 //@     invariant forall j int :: 0 <= j && j < len(kept) ==> (kept[j].ID_ < start || kept[j].ID_ > end)
 //@     invariant forall i int :: 0 <= i && i < len(rg.rules) ==> rg.rules[i].ID_ == old(rg.rules[i].ID_)
+
+//@ func (*RuleGroup).DeleteByMsg props C17,C07
+//@   ensures noneSelected: forall j int :: 0 <= j && j < len(rg.rules) ==> (isnil(rg.rules[j].Msg) || macroStr(rg.rules[j].Msg) != msg)
+//@   ensures notLonger: len(rg.rules) <= len(old(rg.rules))
+//@   loop 1
+//@     invariant -1 <= rangeindex && rangeindex < len(rg.rules) && rg.rules == old(rg.rules) && len(kept) <= rangeindex + 1
+//@     invariant isnil(kept) || fresh(kept)
+//@     invariant forall j int :: 0 <= j && j < len(kept) ==> (isnil(kept[j].Msg) || macroStr(kept[j].Msg) != msg)
+
+// DeleteByID removes the first rule with the id (ids are unique in a group) and keeps the order of the others.
+//@ func (*RuleGroup).DeleteByID props C17,C07
+//@   ensures notLonger: len(rg.rules) <= len(old(rg.rules)) && len(rg.rules) >= len(old(rg.rules)) - 1
+//@   ensures absentUnchanged: (forall i int :: 0 <= i && i < len(old(rg.rules)) ==> old(rg.rules[i].ID_) != id) ==> rg.rules == old(rg.rules)
+//@   loop 1
+//@     invariant -1 <= rangeindex && rangeindex < len(rg.rules) && rg.rules == old(rg.rules)
+//@     invariant forall i int :: 0 <= i && i <= rangeindex ==> rg.rules[i].ID_ != id
+//@     invariant forall i int :: 0 <= i && i < len(rg.rules) ==> rg.rules[i].ID_ == old(rg.rules[i].ID_)
